@@ -452,6 +452,7 @@ def first_diff(a, b):
 def run_shard(spec, R):
     rng = random.Random(spec["seed"])
     W = Work(R)
+    code = isolate.code_hash()
     try:
         pool = make_pool(rng, spec["tier"], spec["pool"])
         for s in range(spec["sequences"]):
@@ -469,6 +470,15 @@ def run_shard(spec, R):
                             {"pool": [public(req)], "sequence": [0, 0], "position": 1})
     finally:
         W.close()
+    tree_unchanged(code, R)
+
+
+def tree_unchanged(code, R):
+    """Reports of one shard are only comparable when they come from one version of the tree under test."""
+    if isolate.code_hash() != code:
+        R.witnesses[:] = []
+        R.witness_counts.clear()
+        raise RuntimeError("the tree under test (%s) was modified while the shard was running; nothing can be concluded" % isolate.repo())
 
 
 def replay(case, R):
